@@ -29,7 +29,8 @@ THEOREMS = [
 RULE = ('run: a client byte string (HTTP grammar + repeated httpgen.mutate; random bytes; oversized / non-numeric / '
         'negative / repeated lengths; unknown schemes, methods, versions; non-UTF-8; the two former hang inputs; '
         'follow-up bytes after a served request) under a segmentation, through the real HttpProtocolHandler (default '
-        'flags, --enable-web-server, or web + static file server; patched connect that succeeds or fails); per segment: outcome class, client buffer, handle_data result, must-flush, teardown, '
+        'flags, --enable-web-server, or web + static file server, each also with --enable-proxy-protocol and PROXY v1 '
+        'lines (valid, spec-valid but over the 57-byte limit, malformed, v2 signature); patched connect that succeeds or fails); per segment: outcome class, client buffer, handle_data result, must-flush, teardown, '
         'read interest vs the model.  build/wf: argument tuples of the response builders vs the Build/Responses models, '
         'and WF_response vs h11 on canned, built and damaged responses.  distinct by canonical JSON; non-trivial = run '
         'case that reaches a reject or served outcome, or an in-guard builder case')
@@ -39,7 +40,7 @@ ASSUMPTIONS = [
     'run and handed to the model as its plugin parameter',
     'only the client descriptor is reported ready (R=[client], W=[]): plugin descriptor hooks are not triggered',
     'gzip.compress is opaque in the model; the harness pins mtime=0 so that the same bytes reach model and builder',
-    '--enable-proxy-protocol and TLS-wrapped client connections are not modelled',
+    'TLS-wrapped client connections are not modelled; --enable-proxy-protocol is (PxModel/ProxyProtocol.lean)',
     'plugin contract for C06_total: hooks raise only HttpProtocolException subclasses (the crash case is C06_crash_escapes)',
 ]
 EXHAUSTIVE = {}
@@ -135,7 +136,7 @@ def _wrap(h, rec, flags):
         try:
             return real_parse(data, *a, **kw)
         except Exception as e:
-            rec.parse_exc = exc_name(e)
+            rec.parse_exc = {'NotImplementedError': 'notImplemented'}.get(type(e).__name__, exc_name(e))
             raise
     h.request.parse = parse
 
@@ -207,13 +208,25 @@ def _static_dir():
 
 
 def flag_args(case):
-    """web: 0 = default flags, 1 = --enable-web-server, 2 = web server + static file server"""
+    """web: 0 = default flags, 1 = --enable-web-server, 2 = web server + static file server;
+    pp: 1 = --enable-proxy-protocol (a PROXY v1 line precedes the request)"""
     web = case.get('web', 0)
+    pp = ['--enable-proxy-protocol'] if case.get('pp') else []
     if web == 1:
-        return ['--enable-web-server']
+        return pp + ['--enable-web-server']
     if web == 2:
-        return ['--enable-web-server', '--enable-static-server', '--static-server-dir', _static_dir()]
-    return []
+        return pp + ['--enable-web-server', '--enable-static-server', '--static-server-dir', _static_dir()]
+    return pp
+
+
+def pp_str(pr):
+    """request.protocol attributes once its line was parsed"""
+    if pr is None or pr.version is None:
+        return 'None'
+
+    def addr(a):
+        return 'None' if a is None else '%s:%d' % (hx(a[0]), a[1])
+    return '(%d,%s,%s,%s)' % (pr.version, hx(pr.family), addr(pr.source), addr(pr.destination))
 
 
 def drive(case):
@@ -293,7 +306,8 @@ def _drive(case):
                 dead = True
             ev2 = w.events(h)
             ri = (not dead) and bool(ev2.get(fd, 0) & selectors.EVENT_READ)
-            ps = 'st=? tot=?' if rec.parse_exc is not None else 'st=%d tot=%d' % (h.request.state, h.request.total_size)
+            ps = 'st=? tot=?' if rec.parse_exc is not None else 'st=%d tot=%d pp=%s' % (
+                h.request.state, h.request.total_size, pp_str(h.request.protocol))
             out.append('o=%s hq=%s q=%s ret=%d mf=%d td=%d esc=%d ri=%d %s' % (
                 o, bl(hq), bl(buf), 1 if ret is True else 0, int(h.must_flush_before_shutdown), int(tdb), int(esc), int(ri), ps))
             infos.append({'o': cls, 'buf': buf, 'added': added, 'ret': ret, 'mf': h.must_flush_before_shutdown,
@@ -392,11 +406,12 @@ def model_lines(case):
         # the plugin parameter of the model is what the real plugin did (see ASSUMPTIONS)
         r = guarded(drive, case, cpu=2)
         if r == 'hang':
-            return ['first run - none . ' + ' '.join(case['segs'])]
+            return ['first run %s - none . %s' % ('pp' if case.get('pp') else '-', ' '.join(case['segs']))]
         _, rec, _ = r
         from proxy.common.flag import FlagParser   # noqa: F401  (flags are built by World)
         plugins = case_plugins(case)
-        return ['first run %s %s %s %s' % (plugins, rec.oc or 'none', ','.join(rec.cds) or '.', ' '.join(case['segs']))]
+        return ['first run %s %s %s %s %s' % ('pp' if case.get('pp') else '-', plugins, rec.oc or 'none',
+                                              ','.join(rec.cds) or '.', ' '.join(case['segs']))]
     if k == 'wf':
         return ['first wf %s %s' % (case['ctx'], case['raw'] or '-')]
     if k == 'mkres':
@@ -714,8 +729,46 @@ def in_guard(case):
     return (not nocl) or cc
 
 
-def _run(segs, web=0, plan='ok'):
-    return {'kind': 'run', 'web': web, 'plan': plan, 'segs': [s.hex() for s in segs if s]}
+def _run(segs, web=0, plan='ok', pp=0):
+    c = {'kind': 'run', 'web': web, 'plan': plan, 'segs': [s.hex() for s in segs if s]}
+    if pp:
+        c['pp'] = 1
+    return c
+
+
+# PROXY protocol v1 lines (without their CRLF): valid ones incl. the worst-case lengths of the
+# specification, and malformed ones
+PP_VALID = [
+    b'PROXY TCP4 10.0.0.1 10.0.0.2 56324 443', b'PROXY TCP4 255.255.255.255 255.255.255.255 65535 65535',
+    b'PROXY TCP6 ::1 ::1 1 2', b'PROXY TCP6 2001:db8::1 2001:db8::2 65535 65535', b'PROXY UNKNOWN',
+    b'PROXY UNKNOWN 1 2 3 4', b'PROXY TCP4 a b +1 0_0',
+]
+PP_SPEC_VALID_TOO_LONG = [
+    # valid per the specification (v1 line up to 107 bytes) but longer than the 57 the code allows
+    b'PROXY TCP6 ffff:ffff:ffff:ffff:ffff:ffff:ffff:ffff ffff:ffff:ffff:ffff:ffff:ffff:ffff:ffff 65535 65535',
+    b'PROXY UNKNOWN ffff:ffff:ffff:ffff:ffff:ffff:ffff:ffff ffff:ffff:ffff:ffff:ffff:ffff:ffff:ffff 65535 65535',
+    b'PROXY TCP6 2001:db8:85a3::8a2e:370:7334 2001:db8:85a3::8a2e:370:7335 443 8080',
+]
+PP_BAD = [
+    b'PROXY', b'PROXY ', b'PROXY TCP5 1.2.3.4 1.2.3.5 1 2', b'PROXY TCP4', b'PROXY TCP4 1.2.3.4', b'PROXY TCP4 1.2.3.4 1.2.3.5 1',
+    b'PROXY TCP4 1.2.3.4 1.2.3.5 x 2', b'PROXY TCP4 1.2.3.4 1.2.3.5 1 y', b'PROXY TCP4 1.2.3.4 1.2.3.5 1 2 3', b'PROXYX TCP4 a b 1 2',
+    b'PROXY  TCP4 a b 1 2', b'PROXY tcp4 a b 1 2', b'proxy TCP4 a b 1 2', b'PROXY TCP4 a b 1 2 ', b'PROXY UNKNOWN x', b'PROXY\tTCP4 a b 1 2',
+    b'PROXY TCP4 ' + b'1' * 60, b'', b'\x0d\x0a\x0d\x0a\x00\x0d\x0a\x51\x55\x49\x54\x0a\x21\x11\x00\x0c' + bytes(12),
+    b'PROXY TCP4 1.2.3.4 1.2.3.5 1 \xff', b'PROXY TCP4 \xff\xfe b 1 2',
+]
+PP_REQS = [
+    b'GET http://h/ HTTP/1.1\r\n\r\n', b'GET / HTTP/1.1\r\nHost: a\r\n\r\n', b'CONNECT h:443 HTTP/1.1\r\n\r\n',
+    b'POST http://h/p HTTP/1.1\r\nContent-Length: 3\r\n\r\nabc', b'GARBAGE\r\n\r\n', b'GET ftp://h/ HTTP/1.1\r\n\r\n',
+    b'GET http://h/ HTTP/2.0\r\n\r\n', b'POST http://h/ HTTP/1.1\r\nContent-Length: zz\r\n\r\n', b'PROXY UNKNOWN\r\nGET http://h/ HTTP/1.1\r\n\r\n', b'',
+]
+
+
+def pp_stream(rng):
+    r = rng.random()
+    line = rng.choice(PP_VALID) if r < 0.5 else rng.choice(PP_SPEC_VALID_TOO_LONG) if r < 0.6 else rng.choice(PP_BAD)
+    if rng.random() < 0.15:
+        line = G.mutate(rng, line)
+    return line + rng.choice([b'\r\n', b'\r\n', b'\r\n', b'\n', b'']) + rng.choice(PP_REQS)
 
 
 HANG1 = b'POST http://h/ HTTP/1.1\r\nContent-Length: 5\r\nContent-Length: 0\r\n\r\nX'
@@ -780,6 +833,19 @@ FOLLOW_UPS = [
 
 def corpus():
     cs = []
+    for line in PP_VALID + PP_SPEC_VALID_TOO_LONG + PP_BAD:
+        for req in PP_REQS[:3]:
+            raw = line + b'\r\n' + req
+            cs.append(_run([raw], 0, 'ok', 1))
+            cs.append(_run([line + b'\r\n', req], 1, 'refuse', 1))
+        raw = line + b'\r\n' + PP_REQS[0]
+        cs.append(_run([raw[:9], raw[9:]], 0, 'ok', 1))
+        cs.append(_run([line + b'\r', b'\n' + PP_REQS[0]], 0, 'ok', 1))
+        if len(raw) <= 90:
+            cs.append(_run([bytes([c]) for c in raw], 0, 'refuse', 1))
+    for req in PP_REQS:
+        cs.append(_run([req], 0, 'ok', 1))                     # flag on, no PROXY line at all
+        cs.append(_run([PP_VALID[0] + b'\r\n' + req], 2, 'ok', 1))
     for raw in STATIC_FIXED:
         cs.append(_run([raw], 2, 'ok'))
         cs.append(_run([raw[:7], raw[7:]], 2, 'ok'))
@@ -997,13 +1063,26 @@ def generate(rng, tier):
             # a follow-up after a complete first request (goes to the plugin's on_client_data)
             raw = b'GET http://h/ HTTP/1.1\r\n\r\n' + raw
         nseg = 3 if big else 2
+        ppflag = 1 if rng.random() < 0.08 else 0       # ordinary traffic at a listener that expects PROXY
         for segs in segmentations(rng, raw, nseg):
-            c = _run(segs, web, plan)
+            c = _run(segs, web, plan, ppflag)
             c['fam'] = fam
             yield c
         if len(raw) <= (120 if big else 60) and rng.random() < (0.3 if big else 0.15):
-            c = _run([bytes([x]) for x in raw], web, plan)
+            c = _run([bytes([x]) for x in raw], web, plan, ppflag)
             c['fam'] = fam
+            yield c
+    for _ in range(4000 if big else 400):
+        raw = pp_stream(rng)
+        web = rng.choice([0, 0, 1, 2])
+        plan = rng.choice(['ok', 'refuse'])
+        for segs in segmentations(rng, raw, 3 if big else 2):
+            c = _run(segs, web, plan, 1)
+            c['fam'] = 'proxy-protocol'
+            yield c
+        if len(raw) <= 100 and rng.random() < 0.2:
+            c = _run([bytes([x]) for x in raw], web, plan, 1)
+            c['fam'] = 'proxy-protocol'
             yield c
     for _ in range(12000 if big else 1500):
         c = gen_builder(rng)
@@ -1050,7 +1129,7 @@ def search(rng):
 def describe(case):
     if case['kind'] != 'run':
         return [case['kind'] + ' in-guard=%d' % in_guard(case)] if case['kind'] != 'wf' else ['wf']
-    return ['run fam=%s' % case.get('fam', 'fixed'), 'run web=%d plan=%s' % (case['web'], case['plan']),
+    return ['run fam=%s' % case.get('fam', 'fixed'), 'run web=%d plan=%s pp=%d' % (case['web'], case['plan'], case.get('pp', 0)),
             'run pieces=%d' % min(len(case['segs']), 5)]
 
 
